@@ -304,12 +304,20 @@ void HttpMessage::readBody()
 		byte buffer[RECV_BLOCK_SIZE];
 		int maxToRead = _socket->available(), bytesRead = 0;
 		if (!chunked && maxToRead <= 0) // readable but nothing available: the peer closed before sending the whole body
+		{
+			_socket->close(); // an incomplete message is not handed on
 			break;
+		}
 		if (!chunked && size > 0)
 			maxToRead = min(maxToRead, size); // do not read into the next pipelined message
 		if (chunked)
 		{
 			String chunkSize = _socket->readLine();
+			if (!chunkSize.ok()) // stream ended before the terminating chunk
+			{
+				_socket->close();
+				return;
+			}
 			maxToRead = chunkSize.hexToInt();
 			if (maxToRead == 0)
 				end = true;
@@ -317,6 +325,7 @@ void HttpMessage::readBody()
 		while (maxToRead > 0) {
 			bytesRead = _socket->read(buffer, min(maxToRead, (int)sizeof(buffer)));
 			if (bytesRead <= 0) {
+				_socket->close();
 				return;
 			}
 			currentsize += bytesRead;
